@@ -78,12 +78,17 @@ def run(ck):
                       "while all three regions hold bytes, or reallocates while the buffer holds bytes")
     model_findings = set()
 
-    def strict(scale, maxw):
+    def strict(scale, maxw, coverage=False):
         c = consts(scale, maxw)
         cfg = vlib.cfg_with(sw, "ByteBufferImpl_strict.cfg", c)
-        r = vlib.tlc(sw, "ByteBufferImpl", cfg, workers=4, timeout=1500,
-                     extra=([] if quick else ["-coverage", "1"]))
-        ck.add_tlc("ByteBufferImpl exhaustive (invariants incl. monitor clean but for the known finding)", r, c)
+        # -coverage slows TLC several times: it is used on a small bound only (vacuity control)
+        r = vlib.tlc(sw, "ByteBufferImpl", cfg, workers=4, timeout=2400, extra=(["-coverage", "1"] if coverage else []))
+        ck.add_tlc("ByteBufferImpl exhaustive (invariants incl. monitor clean but for the known finding)"
+                   + (", with coverage" if coverage else ""), r, c)
+        if coverage:
+            zero = [l.strip() for l in r.lines("  ") if l.rstrip().endswith(": 0")] + \
+                   [l.strip() for l in r.lines("<") if l.rstrip().endswith(": 0:0")]
+            ck.cov["tlc_coverage_zero_count"] = zero[:60]
         if not r.ok:
             # a model-only finding is not a verdict on the code
             ck.cov["model_findings"].append("strict %s MaxW=%d: %s" % (scale, maxw, r.violated or r.error))
@@ -130,7 +135,7 @@ def run(ck):
                 (sim, (1, "k1zero", 16, 400, 50)), (sim, (2, "k200new", 10, 300, 50)),
                 (sim, (3, "k1new", 16, 200, 50))]
     else:
-        jobs = [(strict, ("k1zero", 8)), (strict, ("k200new", 6)), (strict, ("k1new", 5)),
+        jobs = [(strict, ("k1zero", 7)), (strict, ("k200new", 6)), (strict, ("k1new", 5)), (strict, ("k1zero", 4, True)),
                 (cover, ("k1zero", 5)), (cover, ("k200new", 4)), (cover, ("k1new", 3, False)),
                 (sim, (1, "k1zero", 24, 12000, 80)), (sim, (2, "k200new", 14, 8000, 80)),
                 (sim, (3, "k1new", 24, 4000, 80)), (sim, (4, "k1zero", 10, 6000, 30))]
